@@ -128,6 +128,13 @@ def configs(tier, seed):
                         continue
                     out.append(("run_one", {"sampler": sampler, "N": 8, "opts": dict(sched) if sampler in ("smc", "emcee_smc") else {},
                                             "cadence": 1, "n_final": nfinal, "precond": precond, "seed": sd, "ns": ns}))
+    # the MCMC samplers' chain post-processing options (the final evaluation batch has another size)
+    for precond in ("none", "tight") if tier == "quick" else ("none", "tight", "periodic", "logit_affine"):
+        for mo in ({"burnin": 1, "thin": 2}, {"last_step_only": True}, {"thin": 3}):
+            out.append(("run_one", {"sampler": "minipcn", "N": 8, "opts": {}, "cadence": 1, "n_final": None, "precond": precond, "seed": 0,
+                                    "ns": "numpy", "mcmc_opts": mo}))
+        out.append(("run_one", {"sampler": "emcee", "N": 8, "opts": {}, "cadence": 1, "n_final": None, "precond": precond, "seed": 0,
+                                "ns": "numpy", "mcmc_opts": {"discard": 1}}))
     for pre in ("none", "logit") if tier == "quick" else ("none", "logit", "affine"):
         out.append(("run_one", {"sampler": "blackjax_smc", "N": 8, "seed": 0, "opts": {"adaptive": True, "target_efficiency": 0.8},
                                 "n_final": 12, "precond": pre}))
